@@ -70,14 +70,38 @@ func main() {
 		}
 		return r, nil
 	})
+	vx.Register("lkmicro", func(arg json.RawMessage) (interface{}, error) {
+		var j lmicroJob
+		if err := json.Unmarshal(arg, &j); err != nil {
+			return nil, err
+		}
+		return runLMicroJob(j), nil
+	})
 	if vx.IsWorker() {
 		vx.WorkerMain()
 		return
 	}
 	prop := flag.String("prop", "", "property id")
+	oneMicro := flag.String("lmicro", "", "debug: run one lookupd micro scenario (JSON LMicroSpec)")
 	tier := flag.String("tier", "quick", "quick|thorough")
 	replay := flag.String("replay", "", "replay file")
 	flag.Parse()
+	if *oneMicro != "" {
+		var sp nsqlookupd.LMicroSpec
+		json.Unmarshal([]byte(*oneMicro), &sp)
+		r := runLMicroJob(lmicroJob{Spec: sp, MaxRuns: 200000})
+		fmt.Printf("%s: runs=%d exhaustive=%v sequential outcomes=%d\n", sp, r.Res.Runs, r.Res.Exhaustive, len(r.Allowed))
+		for _, a := range r.Allowed {
+			fmt.Println("  SEQ ", a)
+		}
+		for _, o := range vx.SortedOutcomes(r.Res.Outcomes) {
+			fmt.Printf("  %6d  %s\n", r.Res.Outcomes[o], o)
+		}
+		for _, f := range r.Res.Found {
+			fmt.Printf("  VIOL %s\n     %s\n", f.Sig, f.Detail)
+		}
+		return
+	}
 	if *replay != "" {
 		os.Exit(doReplay(*replay))
 	}
@@ -89,6 +113,80 @@ func main() {
 	}
 	fmt.Println("unknown property", *prop)
 	os.Exit(2)
+}
+
+type lmicroJob struct {
+	Spec    nsqlookupd.LMicroSpec `json:"spec"`
+	MaxRuns int                   `json:"max_runs"`
+}
+
+type lmicroRes struct {
+	Res     vx.Res   `json:"res"`
+	Allowed []string `json:"allowed"`
+}
+
+func permutations(n int) [][]int {
+	if n == 0 {
+		return [][]int{{}}
+	}
+	var out [][]int
+	var rec func(cur []int, used []bool)
+	rec = func(cur []int, used []bool) {
+		if len(cur) == n {
+			out = append(out, append([]int{}, cur...))
+			return
+		}
+		for i := 0; i < n; i++ {
+			if !used[i] {
+				used[i] = true
+				rec(append(cur, i), used)
+				used[i] = false
+			}
+		}
+	}
+	rec(nil, make([]bool, n))
+	return out
+}
+
+// runLMicroJob: the sequential outcomes of every order of the operations are the reference;
+// every interleaving of the concurrent run must produce one of them.
+func runLMicroJob(j lmicroJob) lmicroRes {
+	allowed := map[string]bool{}
+	var out lmicroRes
+	for _, ord := range permutations(len(j.Spec.Ops)) {
+		sp := j.Spec
+		sp.Order = ord
+		var o vx.Out
+		if f := runL(func() { o = nsqlookupd.RunLMicro(sp) }); f != "" {
+			out.Res.Infra = append(out.Res.Infra, "sequential reference run failed: "+f)
+			return out
+		}
+		allowed[o.Obs] = true
+	}
+	for a := range allowed {
+		out.Allowed = append(out.Allowed, a)
+	}
+	body := func() vx.Out {
+		o := nsqlookupd.RunLMicro(j.Spec)
+		if !allowed[o.Obs] && !strings.HasPrefix(o.Obs, "world") {
+			o.Viol = append(o.Viol, vx.Found{Sig: "C14 concurrent operations ended in a state no sequential order of them produces :: lookupd micro " + j.Spec.String(),
+				Detail: fmt.Sprintf("concurrent outcome:\n  %s\nsequential outcomes (every order of the operations):\n  %s", o.Obs, strings.Join(out.Allowed, "\n  "))})
+		}
+		return o
+	}
+	out.Res = vx.DPOR(body, vx.Opt{MaxRuns: j.MaxRuns})
+	kept := out.Res.Found[:0]
+	for _, f := range out.Res.Found {
+		sched, _ := f.Replay.([]int)
+		if vx.Confirm(body, sched, f.Sig, 5) {
+			f.Replay = map[string]interface{}{"kind": "lkmicro", "mspec": j.Spec, "schedule": sched}
+			kept = append(kept, f)
+		} else {
+			out.Res.Infra = append(out.Res.Infra, "NONDETERMINISM: violation not reproduced 5/5: "+f.Sig)
+		}
+	}
+	out.Res.Found = kept
+	return out
 }
 
 func doReplay(path string) int {
@@ -105,11 +203,24 @@ func doReplay(path string) int {
 			Spec nsqlookupd.RobustSpec `json:"spec"`
 			Hist []string              `json:"hist"`
 			Cfg  nsqlookupd.LHistCfg   `json:"cfg"`
+			MSpec    nsqlookupd.LMicroSpec `json:"mspec"`
+			Schedule []int                 `json:"schedule"`
 		} `json:"replay"`
 	}
 	json.Unmarshal(b, &r)
 	var viol []vx.Found
-	if r.Replay.Kind == "robust" {
+	if r.Replay.Kind == "lkmicro" {
+		res := runLMicroJob(lmicroJob{Spec: r.Replay.MSpec, MaxRuns: 1})
+		allowed := map[string]bool{}
+		for _, a := range res.Allowed {
+			allowed[a] = true
+		}
+		o, f, _ := vx.RunSchedule(func() vx.Out { return nsqlookupd.RunLMicro(r.Replay.MSpec) }, r.Replay.Schedule, 0)
+		fmt.Println("outcome:", o.Obs, f)
+		if f == "" && !allowed[o.Obs] {
+			viol = append(viol, vx.Found{Sig: r.Sig, Detail: o.Obs})
+		}
+	} else if r.Replay.Kind == "robust" {
 		var o vx.Out
 		if f := runL(func() { o = nsqlookupd.RunRobust(r.Replay.Spec) }); f != "" {
 			o.Viol = append(o.Viol, vx.Found{Sig: vx.FailSig(f) + " :: lookupd " + r.Replay.Spec.Desc, Detail: f})
@@ -131,7 +242,7 @@ func doReplay(path string) int {
 
 func checkC14(tier string) int {
 	rep := vx.NewReport("C14", tier, "model_checking")
-	rep.Rule = "E3: breadth-first search over histories of two producers - two different nsqds, and one nsqd on two connections at once - (connect+IDENTIFY, REGISTER/UNREGISTER of durable and ephemeral topics and channels, PING, disconnect), admin calls (create/delete topic and channel, tombstone) and virtual-time steps across the tombstone lifetime and the inactivity timeout; after every event /lookup, /topics, /channels and /nodes are compared with a plain registry model; every transition replays its history on a fresh real nsqlookupd; states deduplicated by the canonical model state. distinct = distinct canonical states"
+	rep.Rule = "E3: breadth-first search over histories of two producers - two different nsqds, and one nsqd on two connections at once - (connect+IDENTIFY, REGISTER/UNREGISTER of durable and ephemeral topics and channels, PING, disconnect), admin calls (create/delete topic and channel, tombstone) and virtual-time steps across the tombstone lifetime and the inactivity timeout; after every event /lookup, /topics, /channels and /nodes are compared with a plain registry model; every transition replays its history on a fresh real nsqlookupd; states deduplicated by the canonical model state; E1: 2-3 concurrent operations of different connections and the admin API (REGISTER / UNREGISTER / disconnect / topic and channel delete / tombstone / lookup on durable and ephemeral keys), every interleaving (DPOR), the outcome (answers, final registry, /lookup) must equal that of some sequential order of the same operations. distinct = distinct canonical states + distinct (scenario, outcome) pairs"
 	rep.Assumptions = []string{"default schedule within an event", "ephemeral keys: removed when their last producer UNREGISTERs (as nsqlookupd documents), not on disconnect"}
 	depth := 6
 	budget := 3 * time.Minute
@@ -157,6 +268,63 @@ func checkC14(tier string) int {
 	if !st2.Exhaustive {
 		rep.Exhaustive = false
 	}
+	// E1: concurrent operations of different connections / the admin API, every interleaving
+	pre := []string{"conn:p1", "conn:p2"}
+	regd := append(append([]string{}, pre...), "reg:p1:T:C", "reg:p1:T:X#ephemeral", "reg:p1:E#ephemeral:")
+	both := append(append([]string{}, regd...), "reg:p2:T:C")
+	type sc struct {
+		pre []string
+		ops []string
+	}
+	var scs []sc
+	for _, k := range [][2]string{{"T", "C"}, {"T", "X#ephemeral"}, {"E#ephemeral", ""}, {"T", ""}} {
+		reg2, unreg1, unreg2 := "reg:p2:"+k[0]+":"+k[1], "unreg:p1:"+k[0]+":"+k[1], "unreg:p2:"+k[0]+":"+k[1]
+		scs = append(scs, sc{regd, []string{unreg1, reg2}}, sc{regd, []string{"drop:p1", reg2}}, sc{regd, []string{unreg1, reg2, "lookup:" + k[0]}})
+		scs = append(scs, sc{append(append([]string{}, regd...), reg2), []string{unreg1, unreg2}}, sc{append(append([]string{}, regd...), reg2), []string{"drop:p1", unreg2}})
+	}
+	scs = append(scs, sc{regd, []string{"rmtopic:T", "reg:p2:T:C"}}, sc{regd, []string{"rmchan:T:C", "reg:p2:T:C"}}, sc{both, []string{"rmtopic:T", "drop:p1"}}, sc{both, []string{"rmchan:T:C", "unreg:p2:T:C"}},
+		sc{both, []string{"tomb:T:p1", "unreg:p1:T:"}}, sc{both, []string{"tomb:T:p1", "drop:p1", "lookup:T"}}, sc{both, []string{"tomb:T:p1", "reg:p1:T:C"}}, sc{regd, []string{"mktopic:T", "rmtopic:T"}},
+		sc{regd, []string{"mkchan:T:C", "rmchan:T:C"}}, sc{pre, []string{"reg:p1:T:C", "reg:p2:T:C"}}, sc{pre, []string{"reg:p1:T:C", "reg:p2:T:C", "rmtopic:T"}}, sc{both, []string{"drop:p1", "drop:p2"}},
+		sc{both, []string{"drop:p1", "drop:p2", "rmtopic:T"}}, sc{regd, []string{"unreg:p1:T:X#ephemeral", "reg:p2:T:X#ephemeral", "rmchan:T:X#ephemeral"}})
+	var margs []interface{}
+	var mspecs []nsqlookupd.LMicroSpec
+	mruns := 20000
+	if tier == "thorough" {
+		mruns = 400000
+	}
+	for _, x := range scs {
+		sp := nsqlookupd.LMicroSpec{Pre: x.pre, Ops: x.ops}
+		mspecs = append(mspecs, sp)
+		margs = append(margs, lmicroJob{Spec: sp, MaxRuns: mruns})
+	}
+	msched, mcapped := 0, 0
+	vx.Par("lkmicro", margs, func(i int, res json.RawMessage, errStr, crash string) {
+		if crash != "" || errStr != "" {
+			rep.InfraError(fmt.Sprintf("lookupd micro %s: %s%s", mspecs[i], crash, errStr))
+			return
+		}
+		var r lmicroRes
+		json.Unmarshal(res, &r)
+		msched += r.Res.Runs
+		rep.Evaluations += r.Res.Runs
+		if !r.Res.Exhaustive {
+			mcapped++
+			rep.Exhaustive = false
+			rep.Notes = append(rep.Notes, mspecs[i].String()+": "+r.Res.Capped)
+		}
+		for o, n := range r.Res.Outcomes {
+			rep.Outcomes[mspecs[i].String()+" => "+o] += n
+		}
+		for _, s := range r.Res.Infra {
+			rep.InfraError(mspecs[i].String() + ": " + s)
+		}
+		for _, f := range r.Res.Found {
+			rep.Violation(f)
+		}
+	})
+	rep.Extra["e1_scenarios"] = len(scs)
+	rep.Extra["e1_schedules_executed"] = msched
+	rep.Extra["e1_scenarios_capped"] = mcapped
 	rep.Extra["same_identity_two_connections"] = map[string]interface{}{"depth_completed": st2.MaxDepth, "states": st2.States, "transitions": st2.Transitions, "new_states_per_depth": st2.PerDepth}
 	return rep.Finish()
 }
